@@ -23,6 +23,8 @@ python3 translate/rs2lean_shards.py /repo lean/RSVerif/Gen/SrcShards.lean || tru
 python3 translate/rs2lean_glue.py /repo lean/RSVerif/Gen/SrcGlue.lean || true
 python3 translate/rs2lean_select.py /repo lean/RSVerif/Gen/SrcSelect.lean || true
 python3 translate/rs2lean_utils.py /repo lean/RSVerif/Gen/SrcUtils.lean || true
+python3 translate/rs2lean_mul.py /repo lean/RSVerif/Gen/SrcMul.lean || true
+python3 translate/rs2lean_bytes.py /repo lean/RSVerif/Gen/SrcBytes.lean || true
 mods=""
 for f in lean/RSVerif/Properties/C*.lean; do
   m=$(basename "$f" .lean)
